@@ -1082,7 +1082,7 @@ fn main() {
     let mut ctx = Ctx { cases: 0 };
     match a.mode.as_str() {
         "walk" | "all" => {
-            let (nsc, ncalls) = if a.thorough { (2000, 60) } else { (500, 50) };
+            let (nsc, ncalls) = if a.thorough { (1200, 60) } else { (500, 50) };
             for k in 0..nsc {
                 let mut rr = SplitMix64::new(r.next());
                 guarded(&mut ctx, "scenario", |ctx| match k % 4 {
@@ -1096,7 +1096,7 @@ fn main() {
         "walk7" => {
             // C07: other seeds, longitudinal field in three of four Ising scenarios
             let mut r = SplitMix64::new(a.seed.wrapping_mul(0xD1B54A32D192ED03) ^ 0xC07);
-            let (nsc, ncalls) = if a.thorough { (2000, 60) } else { (500, 50) };
+            let (nsc, ncalls) = if a.thorough { (1200, 60) } else { (500, 50) };
             for k in 0..nsc {
                 let mut rr = SplitMix64::new(r.next());
                 guarded(&mut ctx, "scenario", |ctx| match k % 5 {
